@@ -247,6 +247,19 @@ def make_objects(rng, i):
             return PCAVectorModel(pca_data(rng, int(rng.integers(4, 10)), int(rng.integers(3, 8)))), "PCAVectorModel", 0
         if which == 1:
             k = int(rng.integers(4, 8))
+            if rng.random() < 0.4:
+                # a model of images (appearance): its template is an image with a mask / landmarks of its own
+                import menpo.image as mi
+                shp_ = (int(rng.integers(3, 6)), int(rng.integers(3, 6)))
+                msk_ = gen.mask(rng, shp_, "random")
+                if msk_.sum() < 3:
+                    msk_[:] = True
+                samples = []
+                for _ in range(int(rng.integers(4, 8))):
+                    im_ = mi.MaskedImage(rng.normal(size=(1,) + shp_), mask=msk_.copy()) if rng.random() < 2 and (i // 48) % 2 else mi.Image(rng.normal(size=(1,) + shp_))
+                    samples.append(im_)
+                samples[0].landmarks["lm"] = ms.PointCloud(rng.uniform(0, 2, (3, 2)))
+                return PCAModel(samples), "PCAModel", 2
             samples = [ms.PointCloud(rng.normal(size=(k, d))) for _ in range(int(rng.integers(4, 9)))]
             return PCAModel(samples), "PCAModel", d
         if which == 2:
@@ -478,6 +491,30 @@ def w_independence(ctx, rng, i):
                 if changed:
                     ctx.fail("mutating_%s_is_visible_in_the_other" % ("a_copy" if direction == "copy" else "the_original"),
                              cls=cls, mech=mname + ":answers_changed:" + ",".join(changed))
+    # --- a copy reset to the identity and then given the original's map back by in-place composition is still a copy: it owns its
+    # matrix (nothing written into it afterwards reaches the original)
+    import menpo.transform as _mt
+    from menpo.transform.base import Alignment as _Al
+    if isinstance(o, _mt.Homogeneous) and not isinstance(o, _Al) and np.asarray(o.h_matrix).shape[0] == np.asarray(o.h_matrix).shape[1] and hasattr(type(o), "init_identity"):
+        for how in ("compose_before_inplace", "compose_after_inplace"):
+            try:
+                src_ = o.copy()
+                c_ = type(o).init_identity(src_.n_dims)
+                getattr(c_, how)(src_)
+            except Exception:
+                continue
+            d_src = digest(src_)
+            ctx.tap("identity_given_a_map_in_place", "calls"); ctx.tap("identity_given_a_map_in_place", "checked")
+            try:
+                sh_ = shared(c_, src_)
+            except Exception:
+                sh_ = []
+            if sh_:
+                ctx.fail("copy_shares_memory_with_the_original", cls=cls, mech="identity_then_" + how, buffer=str(sh_[0])[:80])
+            for path, buf in buffers(c_):
+                perturb(buf)
+            if digest(src_) != d_src:
+                ctx.fail("write_into_copy_reaches_the_original", cls=cls, mech="identity_then_" + how)
     ctx.see("classes", cls)
     ctx.count_case((cls, d, tuple(sorted(set(ran)))), nontrivial=nbuf > 0 or bool(ran),
                    sample={"cls": cls, "dims": d, "buffers_written": nbuf, "mutators": sorted(set(ran))} if i < 8 else None)
@@ -502,7 +539,7 @@ def w_manager_history(ctx, rng, i):
     for step in range(n_ops):
         op = ["set", "set", "set", "get", "delete", "iterate", "copy", "assign_to_owner", "transform_owner", "none_key",
               "edit_assigned", "bad_dims", "bad_type", "edit_stored", "set_own_group", "set_own_group", "assign_own_manager",
-              "delete_none_key", "empty_group_and_dimension_change"][rng.integers(0, 19)]
+              "delete_none_key", "empty_group_and_dimension_change", "bulk_update", "bulk_update_mixed"][rng.integers(0, 21)]
         if op == "set":
             name = NAMES[rng.integers(0, len(NAMES))]
             val = gen.shape(rng, None, d=d, n=int(rng.integers(3, 7)))
@@ -624,6 +661,34 @@ def w_manager_history(ctx, rng, i):
             perturb(val.points)
             if val.has_landmarks:
                 pass
+        elif op in ("bulk_update", "bulk_update_mixed"):
+            # several groups at once through the mapping interface (dict / pairs / keywords): stored as copies, in order, and -
+            # also into an empty manager - all of one dimensionality
+            names_ = [NAMES[j] for j in rng.permutation(len(NAMES))[:int(rng.integers(2, 4))]]
+            vals_ = [gen.shape(rng, None, d=d, n=int(rng.integers(3, 6))) for _ in names_]
+            if op == "bulk_update_mixed":
+                vals_[int(rng.integers(1, len(vals_)))] = gen.shape(rng, "PointCloud", d=5 - d, n=3)
+            form = int(rng.integers(0, 2))
+            try:
+                lm.update(OrderedDict(zip(names_, vals_)) if form == 0 else list(zip(names_, vals_)))
+                if op == "bulk_update_mixed":
+                    ctx.fail("groups_of_different_dimensionality_accepted", cls="LandmarkManager", mech="update:" + ("empty_manager" if not model else "non_empty_manager"))
+            except ValueError:
+                pass
+            # whatever was stored before a refusal stays stored: the model follows the manager's own account of its keys
+            refused_at = next((j_ for j_, v_ in enumerate(vals_) if v_.n_dims != d), len(vals_)) if model or op == "bulk_update" else None
+            for j_, (k_, v_) in enumerate(zip(names_, vals_)):
+                if k_ not in lm:
+                    continue
+                if refused_at is not None and j_ < refused_at:
+                    model[k_] = digest(v_)                 # handed over before any refusal: stored as it was given
+                    assigned.append((v_, k_))
+                elif k_ not in model or refused_at is None:
+                    model[k_] = digest(lm[k_])             # (an empty manager takes its dimensionality from whichever group came first)
+            if len(set(g_.n_dims for g_ in lm.values())) > 1:
+                ctx.fail("groups_of_different_dimensionality_accepted", cls="LandmarkManager", mech="update:stored")
+                for k_ in [k_ for k_, g_ in lm.items() if g_.n_dims != d]:
+                    del lm[k_]
         elif op == "bad_dims":
             if model:
                 try:
